@@ -582,5 +582,8 @@ def run(rep, prog, tier):
     for name, floor in (('C02', 60), ('C03', 40), ('C04', 12), ('C05', 8), ('C07', 50), ('C15', 40)):
         if counts[name] < floor and not any(not o.ok for o in rep.obls):
             raise AnalysisError('scoped reuse of %s rules matched %d one-population constructs, fewer than the %d confirmed' % (name, counts[name], floor))
+    # the compiled one-population driver evaluates the same M and V: C truncates quotients of integer operands (1/2 == 0)
+    from rules.c02 import rule_c_intdiv
+    rule_c_intdiv(rep, CProgram())
     rep.floor('R-ALG', 25)
     rep.floor('R-LATE', 4)
